@@ -263,6 +263,47 @@ pub fn judge(c: &Case, st: &mut Stats) -> Verdict {
                 format!("{} items: {:?}", got.len(), got.iter().map(|g| g.as_ref().map(|t| (t.kind, t.value.len())).map_err(|e| format!("{:?}", e))).collect::<Vec<_>>()),
             );
         }
+        // the same sequence read in other orders of calls: the first item with next(), then every second one with nth(1)
+        // on the SAME (already advanced) iterator; and item k through skip(k) on a fresh one
+        if list.len() >= 2 && list.len() <= 40 {
+            let strided = crate::engine::guard(|| {
+                let mut it = h.tlvs();
+                let mut out = vec![it.next()];
+                for _ in 0..list.len() {
+                    out.push(it.nth(1));
+                }
+                out
+            });
+            if let Ok(out) = strided {
+                for (j, g) in out.iter().enumerate() {
+                    let idx = 2 * j;
+                    let ok = match (list.get(idx), g) {
+                        (Some((k, v)), Some(Ok(t))) => t.kind == *k && t.value.as_ref() == *v,
+                        (None, None) => true,
+                        _ => false,
+                    };
+                    if !ok {
+                        return fail("parse-back-tlvs-nth", format!("item {} of the list (or the end) from next() followed by nth(1) calls", idx), format!("{:?}", g.as_ref().map(|r| r.as_ref().map(|t| (t.kind, t.value.len())).map_err(|e| format!("{:?}", e)))));
+                    }
+                }
+            } else {
+                return fail("parse-back-tlvs-nth", "iteration returns".into(), "panic".into());
+            }
+            for (k2, (k, v)) in list.iter().enumerate().take(6) {
+                match crate::engine::guard(|| h.tlvs().skip(k2).next()) {
+                    Ok(Some(Ok(t))) if t.kind == *k && t.value.as_ref() == *v => {}
+                    other => {
+                        let shown = match other {
+                            Ok(Some(Ok(t))) => format!("Ok(kind {}, {} value bytes)", t.kind, t.value.len()),
+                            Ok(Some(Err(e))) => format!("Err({:?})", e),
+                            Ok(None) => "None".to_string(),
+                            Err(p) => format!("panic: {}", p),
+                        };
+                        return fail("parse-back-tlvs-skip", format!("item {} through skip({})", k2, k2), shown);
+                    }
+                }
+            }
+        }
     }
     Ok(())
 }
